@@ -126,8 +126,11 @@ func (s *Server) shutdown() {
 	for _, v := range s.active {
 		v.Close()
 	}
-	for len(s.active) > 0 {
-		delete(s.active, <-s.delListener)
+	// Every Listener has sent its name by now (Close waits for that), but a name
+	// may have been received before its Listener was added: waiting for one name
+	// per Listener can block forever, just empty the channel.
+	for len(s.delListener) > 0 {
+		<-s.delListener
 	}
 	if s.active = nil; atomic.SwapUint32(&s.run, 2) == 2 {
 		return
